@@ -18,6 +18,10 @@ def searcher(ob):
     """Concrete failing input for a failed obligation: bounded search over the matrix row."""
     warnings.simplefilter("ignore")
     row = ob.meta.get("row")
+    if ".wrap" in ob.func or "BoundRoutine" in ob.func or "bind" in ob.func.split(".")[-1]:
+        hist = c10_concrete.history_cases()
+        if hist:
+            return {"found": True, "kind": "c10-history", "bad": hist}
     fails, n, d = c10_concrete.search(row=row, stop_at=1)
     if not fails and row is not None:
         fails, n2, d2 = c10_concrete.search(row=None, stop_at=1)
@@ -30,6 +34,14 @@ def searcher(ob):
 def replay(data):
     warnings.simplefilter("ignore")
     case = data.get("case")
+    if data.get("kind") == "c10-postponed":
+        bad = c10_concrete.postponed_annotation_case()
+        print("replay postponed annotations ->", bad)
+        return 1 if bad else 0
+    if data.get("kind") == "c10-history":
+        bad = c10_concrete.history_cases()
+        print("replay bind/wrap sequences ->", bad)
+        return 1 if bad else 0
     if not case:
         print("replay: no concrete input recorded for", data.get("obligation"))
         print(data.get("solver"))
@@ -49,6 +61,7 @@ def main(tier, seed):
         c10.binder_obligations(chk, I, flags, clsname, restrict_accept=False)
     c10.glue_obligations(chk)
     c10.bind_obligations(chk)
+    c10.binding_lookup_obligations(chk)
     c10.noop_lemma(chk)
     chk.trusted.update(I.assumed_used)
     chk.trusted.add("meta: routing clauses (per binder x matrix row) + _get_binding exit clauses + glue clauses "
@@ -58,9 +71,23 @@ def main(tier, seed):
         fails, n, d = c10_concrete.search(seed=seed, stop_at=5, limit=None if tier == "thorough" else 4000)
         chk.bounded.append({"name": "bounded cross-check: all signatures <= 5 parameters x call shapes on the real code",
                             "evaluations": n, "distinct_nontrivial": d, "failures": len(fails),
-                            "rule": "every (shape, annotation rotation, defaults, call shape, bind|wrap); distinct by shape+call"})
+                            "rule": "every (shape, annotation rotation, defaults, call shape incl. keywords named self / __binding / args / kwargs ..., bind|wrap) for plain functions; "
+                                    "signatures <= 3 parameters for bound methods (incl. receiver collected by *args), class / static methods, callable instances "
+                                    "(hashable or not) and classes (with and without __call__); distinct by shape+call+flavour"})
         for f in fails:
-            chk.violation("bounded-cross-check :: " + f["row"], {"found": True, "kind": "c10-call", "case": f}, True)
+            chk.violation("bounded-cross-check :: " + f["row"] + " :: " + f.get("flavour", "function"),
+                          {"found": True, "kind": "c10-call", "case": f}, True)
+        hist = c10_concrete.history_cases()
+        chk.bounded.append({"name": "bounded cross-check: bind / wrap applied in sequence (subclasses and instances of wrapped classes, "
+                                    "wrapping / binding twice) on the real code", "evaluations": 9, "failures": len(hist)})
+        if hist:
+            chk.violation("bounded-cross-check :: bind-wrap-sequences", {"found": True, "kind": "c10-history", "bad": hist}, True)
+        post = c10_concrete.postponed_annotation_case()
+        kf = [k for k in Check.known_findings("C10") if k["id"] == "C10-postponed-annotations"]
+        if post and kf:
+            chk.kf_lines.append(f"KNOWN-FINDING: property=C10 {kf[0]['print']}")
+        elif post:
+            chk.violation("bounded-cross-check :: postponed-annotations", {"found": True, "kind": "c10-postponed", "bad": post}, True)
         bad = c10_concrete.metadata_case()
         if bad:
             chk.violation("wrap :: metadata", {"found": True, "kind": "c10-metadata", "bad": bad}, True)
